@@ -230,6 +230,73 @@ def r22(ctx, fx):
         ctx.finding(rid, k, "an existing symbol is not overwritten with its new value (`*existing = symbol`)", fn.where)
 
 
+def r27(ctx, fx, loop):
+    rid = ctx.rule("R2.7", "what a pass did is visible to the test that ends the passes: `segments.<name>.start/end` are registered (the context method that adds symbols "
+                   "under `segments`) on every path from the emission of the main file to the test `undefined.is_empty()` of the same iteration (MIR must-pass with "
+                   "wrapper summaries) — registered after the test, a segment that grew in the last pass is noticed by nobody, and what reads its end (a segment that "
+                   "starts there, a header word) keeps the end of the pass before")
+    if loop is None:
+        ctx.fail_closed(rid, "pass loop not found")
+        return
+    regs = [f for f in fx.all_fns("mos_core") if f.d.get("hir") and f.d.get("impl_self") == CC and "::tests::" not in f.path and
+            any(x.get("k") == "lit" and str(x.get("v", "")).startswith("segments") for x in lib.hwalk(f.hir["body"])) and
+            any(True for _ in lib.hir_calls(f.hir["body"], "CodegenContext::add_symbol"))]
+    if not regs:
+        ctx.fail_closed(rid, "the function that registers the `segments.*` symbols was not found")
+        return
+    reg_ids = {f.id for f in regs}
+    mc = lib.MustCall(fx, lambda p: any(lib.norm(p) == lib.norm(f.path) for f in regs), depth=3)
+    through = mc.call_blocks(loop)
+    emits = [bi for bi, t in lib.calls(loop) if lib.norm(lib.callee(t)[0] or "").endswith("CodegenContext::emit_tokens")]
+    tests = []
+    du = lib.DefUse(loop)
+    for bi, t in lib.calls(loop):
+        p = lib.norm(lib.callee(t)[0] or "")
+        if p.endswith("::is_empty") and "HashSet" in p:
+            tests.append(bi)
+    key = "%s|segment-symbols-before-the-test" % loop.path
+    ctx.inst(rid, key, sample={"registering_functions": [f.path for f in regs], "emissions": len(emits), "tests_of_the_undefined_set": len(tests), "registrations_in_the_loop": len(through)})
+    if not emits or not tests:
+        ctx.fail_closed(rid, "emission of the main file / test of the undefined set not found in the pass loop")
+        return
+    bad = [(e, t_) for e in emits for t_ in tests if not lib.must_pass(loop, through, t_, start=e)]
+    if bad:
+        ctx.finding(rid, key, "the pass loop can test `undefined.is_empty()` without having registered the `segments.*` symbols of the pass it just ran: a segment whose "
+                    "size changed in that pass is not noticed, no further pass follows, and whatever reads `segments.<name>.end` was assembled with the end of the "
+                    "pass before", loop.where)
+
+
+def r28(ctx, fx):
+    rid = ctx.rule("R2.8", "the image is the bytes of the statements: a fresh segment is put into the table of segments while code is generated (`segments.insert(.., "
+                   "Segment::new(..))` in anything emit_token reaches, the dummy segment of the analysis mode aside) only behind a test of the existing segment's range "
+                   "(`range().is_empty()`) in the same function — from the second pass on a `.segment` block in front of its definition is accepted, and replacing "
+                   "the segment would throw away what the block emitted")
+    n = 0
+    for f in sorted(fx.all_fns("mos_core"), key=lambda f: f.path):
+        if f.kind == "closure" or not f.d.get("hir") or "::tests::" in f.path or not f.path.startswith(CC + "::"):
+            continue
+        if f.path.endswith(("::codegen", "::new")):
+            continue
+        for x in lib.hwalk(f.hir["body"]):
+            if not (x.get("k") == "mcall" and x.get("name") == "insert" and lib.strip(x["recv"]).get("k") == "field" and lib.strip(x["recv"]).get("name") == "segments"):
+                continue
+            if any(y.get("k") == "lit" and str(y.get("v", "")).startswith("$dummy") for a in x.get("args") or [] for y in lib.hwalk(a)):
+                continue
+            if not any(str(lib.hcallee(y) or "").endswith("Segment::new") for a in x.get("args") or [] for y in lib.hwalk(a) if y.get("k") == "call"):
+                continue
+            n += 1
+            guarded = any(y.get("k") == "mcall" and y.get("name") == "is_empty" and any(z.get("k") == "mcall" and z.get("name") == "range" for z in lib.hwalk(y["recv"]))
+                          for y in lib.hwalk(f.hir["body"]) if (y.get("ln") or 0) <= (x.get("ln") or 0))
+            key = "%s|fresh-segment#%d" % (f.path, n)
+            ctx.inst(rid, key, sample={"fn": f.path, "line": x.get("ln"), "range_tested_first": guarded})
+            if not guarded:
+                ctx.finding(rid, key, "%s replaces a segment of the same name without looking whether something was emitted to it in this pass: with a `.segment` block in "
+                            "front of the definition (accepted from the second pass on) the bytes of that block are not in the image, and nothing says so" % (
+                                f.path.rsplit("::", 1)[-1]), "%s:%s" % (f.file, x.get("ln")))
+    if n < 1:
+        ctx.fail_closed(rid, "no place where a defined segment is put into the table was found")
+
+
 def r23(ctx, fx, loop):
     rid = ctx.rule("R2.3", "pass loop: exactly one `break`; it is nested under `errors.is_empty()` and `undefined.is_empty()`; the main file is emitted "
                    "in the same iteration before it; next_pass is called on every path that iterates again")
@@ -539,6 +606,8 @@ def run(ctx):
     loop = r21(ctx, fx, cg)
     r22(ctx, fx)
     r23(ctx, fx, loop)
+    r27(ctx, fx, loop)
+    r28(ctx, fx)
     r24(ctx, fx)
     r25(ctx, fx)
     r26(ctx, fx, loop)
